@@ -31,14 +31,14 @@ Definition leaf_site (n : anode) : nat :=
   then 1 else 0.
 Definition attr_sites (c : oconfig) (n : anode) : nat :=
   fold_right (fun a k => attr_site c a + k) 0 (match an_attrs n with Some l => l | None => [] end).
-(* (a node without name is a text node: its children are written only if it has text) *)
+(* (a node without name is a text node: it contributes the sites of its children) *)
 Fixpoint sites (c : oconfig) (n : anode) : nat :=
   match n with
   | ANode nm v rp at_ ch sc =>
       let below := (fix go (l : list anode) : nat := match l with [] => 0 | x :: r => sites c x + go r end) ch in
       match nm with
       | Some (_ :: _) => attr_sites c (ANode nm v rp at_ ch sc) + (below + leaf_site (ANode nm v rp at_ ch sc))
-      | _ => if truthy_l v then below else 0
+      | _ => below
       end
   end.
 Definition sites_list (c : oconfig) (l : list anode) : nat := fold_right (fun x k => sites c x + k) 0 l.
@@ -275,14 +275,14 @@ Lemma Emits_el_body c node next kc st :
   Emits st (el_body c node next st)
         (match an_name node with
          | Some (_ :: _) => attr_sites c node + (kc + leaf_site node)
-         | _ => if truthy_l (an_value node) then kc else 0
+         | _ => kc
          end).
 Proof.
   intros Hv Ha Hn Hk0. unfold el_body.
-  assert (Hun : Emits st (el_unnamed c node next st) (if truthy_l (an_value node) then kc else 0)).
+  assert (Hun : Emits st (el_unnamed c node next st) kc).
   { unfold el_unnamed. rewrite (el_snippet_plain c node next st Hv).
-    destruct (an_value node) as [[|v0 v]|]; try apply Emits_refl. cbn [truthy_l].
-    replace kc with (0 + kc) by reflexivity. eapply Emits_trans; [apply Emits_push_plain, Hv|apply Hn]. }
+    replace kc with (0 + kc) by reflexivity. eapply Emits_trans; [|apply Hn].
+    destruct (an_value node) as [[|v0 v]|]; try apply Emits_refl. apply Emits_push_plain, Hv. }
   destruct (an_name node) as [[|x nm]|]; try exact Hun.
   unfold el_named, leaf_site.
   destruct (an_self node && match an_children node with [] => true | _ => false end && negb (truthy_l (an_value node))) eqn:Esc.
@@ -314,7 +314,7 @@ Lemma Emits_html_step c parent node index items next kc st :
   Emits st (html_element_step c parent node index items next st)
         (match an_name node with
          | Some (_ :: _) => attr_sites c node + (kc + leaf_site node)
-         | _ => if truthy_l (an_value node) then kc else 0
+         | _ => kc
          end).
 Proof.
   intros Hv Ha Hn Hk0. unfold html_element_step.
@@ -350,7 +350,7 @@ Lemma sites_unfold c nm v rp at_ ch sc :
   sites c (ANode nm v rp at_ ch sc) =
   match nm with
   | Some (_ :: _) => attr_sites c (ANode nm v rp at_ ch sc) + (sites_list c ch + leaf_site (ANode nm v rp at_ ch sc))
-  | _ => if truthy_l v then sites_list c ch else 0
+  | _ => sites_list c ch
   end.
 Proof.
   cbn [sites].
@@ -449,8 +449,8 @@ Proof.
   assert (Hun : fmono st (el_unnamed c node next st)).
   { unfold el_unnamed. destruct (el_snippet c node next st) as [st'|] eqn:E.
     - eapply fmono_el_snippet; eassumption.
-    - destruct (an_value node) as [[|v0 value]|]; try apply fmono_refl.
-      eapply fmono_trans; [apply fmono_tokens|apply Hn]. }
+    - eapply fmono_trans; [|apply Hn].
+      destruct (an_value node) as [[|v0 value]|]; try apply fmono_refl. apply fmono_tokens. }
   destruct (an_name node) as [[|x nm]|]; try exact Hun.
   unfold el_named.
   destruct (an_self node && _ && _).
